@@ -328,23 +328,119 @@ theorem maskParse_only_allowed (src : List Char) (mask : List Span) (inner : Lis
       rw [← this]; exact List.getElem_mem _
     · exact List.mem_append_right _ (List.mem_map_of_mem ht)
 
-/-- `ignoreMarker_drops` (DESIGN §6 C04). `CommentMasker::create_mask` keeps the allowed spans whose
-text does not satisfy `ignore_condition` (`.filter(|(_, text)| !ignore(text))`, written here inline as
-`List.filter`: the filter itself is NOT part of `Model/Mask.lean`, hence not replayed by K; the
-harness oracle covers it with the marker table). For ANY ignore condition `ign`: no token of
-`Mask::parse` over the filtered mask comes from a span whose text carries a marker. -/
+/-- **`ignoreMarker_drops`** (DESIGN §6 C04), over the MODEL of `CommentMasker::create_mask`
+(`commentFilter` of `Model/Mask.lean`: `iter_allowed` → `get_content` → `.filter(|(_, text)| !ignore(text))`
+→ `Mask::from_iter`; replayed against the real `CommentMasker` by op `cmask`). For ANY ignore condition
+`ign` and any mask that satisfies the invariant: the filter never panics (neither `get_content` nor the
+assertion of `from_iter`); the result is exactly the spans whose text does not satisfy `ign`, in the
+order of the mask (a sublist), and is again a mask; no kept span's text satisfies `ign`; every
+dropped span's does; and `Mask::parse` over the result offers a token only if it is a paragraph
+break or comes from a span of the mask whose text does NOT satisfy `ign` ("no token comes from an
+ignored comment") — and offers every inner token of every such span. -/
 theorem ignoreMarker_drops (src : List Char) (mask : List Span) (inner : List Char → List Tok)
+    (ign : List Char → Bool) (hm : MaskOK src.length mask) :
+    ∃ kept, commentFilter ign src mask = .ok kept ∧
+      kept = mask.filter (fun s => !ign (slice src s)) ∧
+      kept.Sublist mask ∧ MaskOK src.length kept ∧
+      (∀ s ∈ kept, ign (slice src s) = false) ∧
+      (∀ s ∈ mask, s ∉ kept → ign (slice src s) = true) ∧
+      ∃ toks, maskParse src kept inner = .ok toks ∧
+        (∀ tok ∈ toks, tok.kind = .paragraphBreak ∨
+          ∃ s ∈ mask, ign (slice src s) = false ∧ ∃ t ∈ inner (slice src s), tok = t.shift s.start) ∧
+        (∀ s ∈ mask, ign (slice src s) = false → ∀ t ∈ inner (slice src s), t.shift s.start ∈ toks) := by
+  have hk := MaskOK_filter (fun s => !ign (slice src s)) hm
+  obtain ⟨toks, h, h1, h2⟩ := maskParse_only_allowed src _ inner hk
+  refine ⟨_, commentFilter_eq ign src mask hm, rfl, List.filter_sublist, hk, ?_, ?_, toks, h, ?_, ?_⟩
+  · intro s hs
+    simpa using (List.mem_filter.mp hs).2
+  · intro s hs hn
+    cases hi : ign (slice src s) with
+    | true => rfl
+    | false => exact absurd (List.mem_filter.mpr ⟨hs, by simp [hi]⟩) hn
+  · intro tok ht
+    rcases h1 tok ht with h | ⟨s, hs, t, hti, rfl⟩
+    · exact Or.inl h
+    · have := List.mem_filter.mp hs
+      exact Or.inr ⟨s, this.1, by simpa using this.2, t, hti, rfl⟩
+  · intro s hs hi t ht
+    exact h2 s (List.mem_filter.mpr ⟨hs, by simp [hi]⟩) t ht
+
+/-- the statement of `ignoreMarker_drops` before the filter was part of the model (the filter written
+inline as `List.filter`): a corollary -/
+theorem ignoreMarker_drops_filter (src : List Char) (mask : List Span) (inner : List Char → List Tok)
     (ign : List Char → Bool) (hm : MaskOK src.length mask) :
     ∃ toks, maskParse src (mask.filter fun s => !ign (slice src s)) inner = .ok toks ∧
       ∀ tok ∈ toks, tok.kind = .paragraphBreak ∨
         ∃ s ∈ mask, ign (slice src s) = false ∧ ∃ t ∈ inner (slice src s), tok = t.shift s.start := by
-  obtain ⟨toks, h, h1, _⟩ := maskParse_only_allowed src _ inner (MaskOK_filter _ hm)
-  refine ⟨toks, h, ?_⟩
-  intro tok ht
-  rcases h1 tok ht with h | ⟨s, hs, t, hti, rfl⟩
-  · exact Or.inl h
-  · have := List.mem_filter.mp hs
-    exact Or.inr ⟨s, this.1, by simpa using this.2, t, hti, rfl⟩
+  obtain ⟨kept, _, rfl, _, _, _, _, toks, h, h1, _⟩ := ignoreMarker_drops src mask inner ign hm
+  exact ⟨toks, h, h1⟩
+
+/-- … and exactly: over the filtered mask the output of `Mask::parse` is, kept span by kept span in mask
+order, an optional `ParagraphBreak` followed by the inner parser's tokens on `src[span]` shifted by
+`span.start` (`maskParse_exact` composed with the model of the filter) -/
+theorem ignoreMarker_exact (src : List Char) (mask : List Span) (inner : List Char → List Tok)
+    (ign : List Char → Bool) (hm : MaskOK src.length mask) :
+    ∃ (kept : List Span) (brks : List (List Tok)), commentFilter ign src mask = .ok kept ∧
+      kept = mask.filter (fun s => !ign (slice src s)) ∧ brks.length = kept.length ∧
+      (∀ b ∈ brks, b.length ≤ 1 ∧ ∀ t ∈ b, t.kind = .paragraphBreak) ∧
+      maskParse src kept inner =
+        .ok ((brks.zip kept).flatMap
+          fun p => p.1 ++ (inner (slice src p.2)).map (·.shift p.2.start)) := by
+  obtain ⟨brks, h1, h2, h3⟩ := maskParse_exact src _ inner
+    (MaskOK_filter (fun s => !ign (slice src s)) hm)
+  exact ⟨_, brks, commentFilter_eq ign src mask hm, rfl, h1, h2, h3⟩
+
+/-- the default `ignore_condition` of `CommentMasker::new` (the model function `ignoreCondition` that op
+`cmask` runs) holds of a text iff one of the eight marker spellings occurs in it or it starts with `#!` -/
+theorem ignoreCondition_spec (text : List Char) :
+    ignoreCondition text = true ↔
+      (∃ mk ∈ ignoreMarkers, ∃ pre post, text = pre ++ mk ++ post) ∨
+      ∃ rest, text = '#' :: '!' :: rest :=
+  ignoreCondition_iff text
+
+/-- with the default condition: no kept span contains a marker or starts with `#!`, and every dropped
+span does -/
+theorem ignoreMarker_drops_default (src : List Char) (mask : List Span) (hm : MaskOK src.length mask) :
+    ∃ kept, commentFilter ignoreCondition src mask = .ok kept ∧ kept.Sublist mask ∧
+      (∀ s ∈ kept, (∀ mk ∈ ignoreMarkers, ¬ ∃ pre post, slice src s = pre ++ mk ++ post) ∧
+        ¬ ∃ rest, slice src s = '#' :: '!' :: rest) ∧
+      (∀ s ∈ mask, s ∉ kept → (∃ mk ∈ ignoreMarkers, ∃ pre post, slice src s = pre ++ mk ++ post) ∨
+        ∃ rest, slice src s = '#' :: '!' :: rest) := by
+  obtain ⟨kept, h, _, hsub, _, hk, hd, _⟩ := ignoreMarker_drops src mask (fun _ => []) ignoreCondition hm
+  refine ⟨kept, h, hsub, ?_, ?_⟩
+  · intro s hs
+    have hf := hk s hs
+    have hn : ¬ (ignoreCondition (slice src s) = true) := by simp [hf]
+    rw [ignoreCondition_spec] at hn
+    exact ⟨fun mk hmk hex => hn (Or.inl ⟨mk, hmk, hex⟩), fun hex => hn (Or.inr hex)⟩
+  · intro s hs hn
+    exact (ignoreCondition_spec _).mp (hd s hs hn)
+
+/-- `Mask::from_iter` (the `collect()` of `CommentMasker::create_mask`): on a list that satisfies the
+mask invariant the sort is the identity and the assertion holds; in general it panics exactly when two
+consecutive spans of the sorted list overlap -/
+theorem maskFromIter_spec (n : Nat) (m : List Span) (hm : MaskOK n m) : maskFromIter m = .ok m :=
+  maskFromIter_ok hm
+
+theorem maskFromIter_panics (spans : List Span) :
+    maskFromIter spans = .error .assertFail ↔ adjacentDisjoint (sortByStart spans) = false :=
+  maskFromIter_panics_iff spans
+
+/-- `CommentMasker::create_mask` after the tree walk, composed (`commentMask`, what op `cmask` runs):
+under the hypotheses of `treeSitterMask_ok` the tree-sitter mask `m` exists and satisfies the
+invariant, and the comment mask is exactly the spans of `m` whose text does not satisfy the ignore
+condition — a mask again. The filter looks at `m`, i.e. at the spans AFTER whitespace merging. -/
+theorem commentMask_ok (ign : List Char → Bool) (isWs : Char → Bool) (gs : List (List Nat))
+    (hwf : ∀ g ∈ gs, WFGroup g) (src : List Char) (hlen : src.length = gs.length) (spans : List Span)
+    (cs : List (Nat × Nat)) (hret : retainStep (sortByStart spans) = cs.map (toByteSpan gs))
+    (hc : CharChain gs.length 0 cs) :
+    ∃ m, treeSitterMask isWs gs.flatten src spans = .ok m ∧ MaskOK src.length m ∧
+      commentMask ign isWs gs.flatten src spans = .ok (m.filter fun s => !ign (slice src s)) ∧
+      MaskOK src.length (m.filter fun s => !ign (slice src s)) := by
+  obtain ⟨m, h1, h2⟩ := treeSitterMask_ok isWs gs hwf src hlen spans cs hret hc
+  refine ⟨m, h1, h2, ?_, MaskOK_filter _ h2⟩
+  simp only [commentMask, h1, bind, Except.bind]
+  exact commentFilter_eq ign src m h2
 
 /-- the marker test of the examples: the text contains `ign` -/
 def hasMarker (c : List Char) : Bool :=
@@ -369,7 +465,105 @@ example : ∃ toks, maskParse ['é', ' ', '😀', 'a', '\n', '/', '/', 'x', ' ',
     ∀ tok ∈ toks, tok.kind = .paragraphBreak ∨ ∃ s ∈ [(⟨0, 4⟩ : Span), ⟨7, 11⟩],
       hasMarker (slice ['é', ' ', '😀', 'a', '\n', '/', '/', 'x', ' ', 'y', 'z'] s) = false ∧
       ∃ t ∈ spy3 (slice ['é', ' ', '😀', 'a', '\n', '/', '/', 'x', ' ', 'y', 'z'] s), tok = t.shift s.start :=
-  ignoreMarker_drops _ _ spy3 hasMarker exMask_ok
+  ignoreMarker_drops_filter _ _ spy3 hasMarker exMask_ok
+
+/-- the text of the witnesses below: `//harper:ignore é` / `x;` / `// yz` -/
+def igSrc : List Char :=
+  ['/', '/', 'h', 'a', 'r', 'p', 'e', 'r', ':', 'i', 'g', 'n', 'o', 'r', 'e', ' ', 'é', '\n', 'x', ';', '\n',
+    '/', '/', ' ', 'y', 'z']
+
+theorem igMask_ok : MaskOK igSrc.length [⟨0, 17⟩, ⟨21, 26⟩] :=
+  ⟨by intro s hs; simp at hs; rcases hs with rfl | rfl <;> simp [igSrc], by simp⟩
+
+/-- non-vacuity of ignoreMarker_drops / ignoreMarker_exact / ignoreMarker_drops_default: the model of the
+filter with the DEFAULT condition on a two-comment mask (multi-byte text in the ignored comment) -/
+example : ∃ kept, commentFilter ignoreCondition igSrc [⟨0, 17⟩, ⟨21, 26⟩] = .ok kept ∧
+    kept = [(⟨0, 17⟩ : Span), ⟨21, 26⟩].filter (fun s => !ignoreCondition (slice igSrc s)) ∧
+    kept.Sublist [⟨0, 17⟩, ⟨21, 26⟩] ∧ MaskOK igSrc.length kept ∧
+    (∀ s ∈ kept, ignoreCondition (slice igSrc s) = false) ∧
+    (∀ s ∈ [(⟨0, 17⟩ : Span), ⟨21, 26⟩], s ∉ kept → ignoreCondition (slice igSrc s) = true) ∧
+    ∃ toks, maskParse igSrc kept spy3 = .ok toks ∧
+      (∀ tok ∈ toks, tok.kind = .paragraphBreak ∨ ∃ s ∈ [(⟨0, 17⟩ : Span), ⟨21, 26⟩],
+        ignoreCondition (slice igSrc s) = false ∧ ∃ t ∈ spy3 (slice igSrc s), tok = t.shift s.start) ∧
+      (∀ s ∈ [(⟨0, 17⟩ : Span), ⟨21, 26⟩], ignoreCondition (slice igSrc s) = false →
+        ∀ t ∈ spy3 (slice igSrc s), t.shift s.start ∈ toks) :=
+  ignoreMarker_drops igSrc _ spy3 ignoreCondition igMask_ok
+example : commentFilter ignoreCondition igSrc [⟨0, 17⟩, ⟨21, 26⟩] = .ok [⟨21, 26⟩] := by decide
+example : maskParse igSrc [⟨21, 26⟩] spy3 =
+    .ok [⟨⟨21, 22⟩, .word⟩, ⟨⟨22, 23⟩, .space 1⟩, ⟨⟨23, 26⟩, .word⟩] := by decide
+example : ∃ (kept : List Span) (brks : List (List Tok)),
+    commentFilter ignoreCondition igSrc [⟨0, 17⟩, ⟨21, 26⟩] = .ok kept ∧
+    kept = [(⟨0, 17⟩ : Span), ⟨21, 26⟩].filter (fun s => !ignoreCondition (slice igSrc s)) ∧
+    brks.length = kept.length ∧ (∀ b ∈ brks, b.length ≤ 1 ∧ ∀ t ∈ b, t.kind = .paragraphBreak) ∧
+    maskParse igSrc kept spy3 =
+      .ok ((brks.zip kept).flatMap fun p => p.1 ++ (spy3 (slice igSrc p.2)).map (·.shift p.2.start)) :=
+  ignoreMarker_exact igSrc _ spy3 ignoreCondition igMask_ok
+example : ∃ kept, commentFilter ignoreCondition igSrc [⟨0, 17⟩, ⟨21, 26⟩] = .ok kept ∧
+    kept.Sublist [⟨0, 17⟩, ⟨21, 26⟩] ∧
+    (∀ s ∈ kept, (∀ mk ∈ ignoreMarkers, ¬ ∃ pre post, slice igSrc s = pre ++ mk ++ post) ∧
+      ¬ ∃ rest, slice igSrc s = '#' :: '!' :: rest) ∧
+    (∀ s ∈ [(⟨0, 17⟩ : Span), ⟨21, 26⟩], s ∉ kept →
+      (∃ mk ∈ ignoreMarkers, ∃ pre post, slice igSrc s = pre ++ mk ++ post) ∨
+      ∃ rest, slice igSrc s = '#' :: '!' :: rest) :=
+  ignoreMarker_drops_default igSrc _ igMask_ok
+
+/-- the marker table of the model: every spelling, anywhere in the text (multi-byte text around it) -/
+example : ∀ mk ∈ ignoreMarkers, ignoreCondition (['/', '/', ' ', 'é'] ++ mk ++ [' ', '😀']) = true := by decide
+/-- a shebang line: `#!` at the very START of the span only -/
+example : ignoreCondition ['#', '!', '/', 'b', 'i', 'n'] = true := by decide
+example : ignoreCondition [' ', '#', '!', '/', 'b', 'i', 'n'] = false := by decide
+/-- near-misses: two spaces, another case, a spelling that is not one of the eight (`spell-check:`) -/
+example : ignoreCondition ['h', 'a', 'r', 'p', 'e', 'r', ':', ' ', ' ', 'i', 'g', 'n', 'o', 'r', 'e'] = false := by decide
+example : ignoreCondition ['H', 'a', 'r', 'p', 'e', 'r', ':', 'i', 'g', 'n', 'o', 'r', 'e'] = false := by decide
+example : ignoreCondition ['s', 'p', 'e', 'l', 'l', '-', 'c', 'h', 'e', 'c', 'k', ':', 'i', 'g', 'n', 'o', 'r', 'e'] = false := by
+  decide
+/-- non-vacuity of ignoreCondition_spec (right to left): the marker `harper:ignore` inside `//harper:ignore é` -/
+example : ignoreCondition (slice igSrc ⟨0, 17⟩) = true :=
+  (ignoreCondition_spec _).mpr (Or.inl ⟨['h', 'a', 'r', 'p', 'e', 'r', ':', 'i', 'g', 'n', 'o', 'r', 'e'], by decide,
+    ['/', '/'], [' ', 'é'], by decide⟩)
+
+/-- `Mask::from_iter`: unsorted input is sorted, abutting spans are NOT fused (`push_allowed` would),
+overlapping spans trip the assertion -/
+example : maskFromIter [⟨2, 4⟩, ⟨0, 2⟩] = .ok [⟨0, 2⟩, ⟨2, 4⟩] := by decide
+example : maskFromIter [⟨0, 3⟩, ⟨2, 4⟩] = .error .assertFail := by decide
+/-- non-vacuity of maskFromIter_spec / maskFromIter_panics -/
+example : maskFromIter [⟨0, 17⟩, ⟨21, 26⟩] = .ok [⟨0, 17⟩, ⟨21, 26⟩] := maskFromIter_spec _ _ igMask_ok
+example : maskFromIter [⟨0, 3⟩, ⟨2, 4⟩] = .error .assertFail := (maskFromIter_panics _).mpr (by decide)
+
+/-- "#!é b": one, one, two, one and one byte -/
+def shGroups : List (List Nat) := [[35], [33], [195, 169], [32], [98]]
+
+theorem shGroups_wf : ∀ g ∈ shGroups, WFGroup g := by
+  intro g hg
+  simp [shGroups] at hg
+  rcases hg with rfl | rfl | rfl | rfl | rfl <;> exact ⟨_, _, rfl, by decide, by decide⟩
+
+/-- non-vacuity of commentMask_ok: the node ranges `#!é` (bytes 0..4) and `b` (bytes 5..6), given out of
+order; the shebang span is dropped by the default condition -/
+example : ∃ m, treeSitterMask (· == '\n') shGroups.flatten ['#', '!', 'é', ' ', 'b'] [⟨5, 6⟩, ⟨0, 4⟩] = .ok m ∧
+    MaskOK 5 m ∧
+    commentMask ignoreCondition (· == '\n') shGroups.flatten ['#', '!', 'é', ' ', 'b'] [⟨5, 6⟩, ⟨0, 4⟩] =
+      .ok (m.filter fun s => !ignoreCondition (slice ['#', '!', 'é', ' ', 'b'] s)) ∧
+    MaskOK 5 (m.filter fun s => !ignoreCondition (slice ['#', '!', 'é', ' ', 'b'] s)) :=
+  commentMask_ok ignoreCondition _ shGroups shGroups_wf ['#', '!', 'é', ' ', 'b'] (by decide) [⟨5, 6⟩, ⟨0, 4⟩]
+    [(0, 3), (4, 5)] (by decide) (by simp [CharChain, shGroups])
+example : commentMask ignoreCondition (· == '\n') shGroups.flatten ['#', '!', 'é', ' ', 'b'] [⟨5, 6⟩, ⟨0, 4⟩] =
+    .ok [⟨4, 5⟩] := by decide
+
+/-- `//harper:ignore` / `//ab` on consecutive lines -/
+def mergedSrc : List Char :=
+  ['/', '/', 'h', 'a', 'r', 'p', 'e', 'r', ':', 'i', 'g', 'n', 'o', 'r', 'e', '\n', '/', '/', 'a', 'b']
+
+/-- **the filter sees the spans AFTER whitespace merging**: two line comments separated only by a line
+break are one allowed span, so the marker in the first also drops the second … -/
+example : treeSitterMask (fun c => c == ' ' || c == '\n') (mergedSrc.map (·.toNat)) mergedSrc [⟨0, 15⟩, ⟨16, 20⟩] =
+    .ok [⟨0, 20⟩] := by decide
+example : commentMask ignoreCondition (fun c => c == ' ' || c == '\n') (mergedSrc.map (·.toNat)) mergedSrc
+    [⟨0, 15⟩, ⟨16, 20⟩] = .ok [] := by decide
+/-- … whereas with code between them (`//harper:ignore` / `x;` / `//ab`) only the first is dropped -/
+example : commentMask ignoreCondition (fun c => c == ' ' || c == '\n')
+    ((mergedSrc.take 16 ++ ['x', ';', '\n'] ++ mergedSrc.drop 16).map (·.toNat))
+    (mergedSrc.take 16 ++ ['x', ';', '\n'] ++ mergedSrc.drop 16) [⟨0, 15⟩, ⟨19, 23⟩] = .ok [⟨19, 23⟩] := by decide
 
 /-! ## (c) comment leaders -/
 
@@ -640,6 +834,223 @@ example : goParse (fun c => c == ' ' || c == '\n')
     ∃ off, goParse (fun c => c == ' ' || c == '\n')
       ['/', '/', 'g', 'o', ':', 'x', '\n', '/', '/', ' ', 'a', 'b'] spy = .ok ((spy []).map (·.shift off)) :=
   goParse_directive _ _ spy ⟨2, 12⟩ (by decide) (by decide) (by decide)
+
+/-! ## JSDoc / JavaDoc: span-only faithfulness
+
+`Faithful` cannot hold of these two parsers (tokens inside `{@tag …}` and after a block tag change
+kind). What does hold — with NO hypothesis on the inner parser — is that the marking passes never
+touch a span: the output is the inner parser's token list, token for token and in order, with kinds
+kept or replaced by `Unlintable` (`Remarked`), shifted to where the stripped line / the comment body
+really is in the file. -/
+
+theorem charTok_aux (f : Char → Kind) : ∀ (c : List Char) (k : Nat),
+    (∀ t ∈ (c.zipIdx k).map (fun p => (⟨⟨p.2, p.2 + 1⟩, f p.1⟩ : Tok)),
+      k ≤ t.span.start ∧ t.span.stop = t.span.start + 1 ∧ t.span.stop ≤ k + c.length) ∧
+    ((c.zipIdx k).map (fun p => (⟨⟨p.2, p.2 + 1⟩, f p.1⟩ : Tok))).Pairwise
+      (fun a b => a.span.stop ≤ b.span.start)
+  | [], k => by simp
+  | x :: xs, k => by
+    obtain ⟨h1, h2⟩ := charTok_aux f xs (k + 1)
+    simp only [List.zipIdx_cons, List.map_cons]
+    refine ⟨?_, List.pairwise_cons.mpr ⟨?_, h2⟩⟩
+    · intro t ht
+      rcases List.mem_cons.mp ht with rfl | ht
+      · simp
+      · have := h1 t ht
+        simp only [List.length_cons]; omega
+    · intro t ht
+      have := h1 t ht
+      simp only []; omega
+
+/-- the one-token-per-character parser of the examples satisfies `InnerOK` -/
+theorem charTok_ok : InnerOK charTok := by
+  intro c
+  obtain ⟨h1, h2⟩ := charTok_aux (fun ch =>
+    if ch = '{' then .punct .OpenCurly else if ch = '}' then .punct .CloseCurly
+    else if ch = '@' then .punct .At else if ch = '*' then .punct .Star
+    else if ch = ' ' then .space 1 else if ch = '\n' then .newline 1 else .word) c 0
+  refine ⟨?_, h2⟩
+  intro t ht
+  have := h1 t ht
+  omega
+
+/-- a token that was not marked `Unlintable` is exactly the inner parser's token (shifted) -/
+theorem remark_unmarked (a b : Tok) (h : Remark a b) (hk : b.kind ≠ .unlintable) : b = a :=
+  h.eq_of_not_unlintable hk
+
+/-- what `SpanFaithful` buys: the text of the file under a (possibly re-marked) token is the text the
+inner parser saw under the original -/
+theorem span_faithful_text (src chunk : List Char) (off : Nat) (t tok : Tok)
+    (hr : Remark (t.shift off) tok) (hc : chunk = (src.drop off).take chunk.length)
+    (hb : t.span.stop ≤ chunk.length) : slice src tok.span = slice chunk t.span :=
+  spanFaithful_text hr hc hb
+
+/-- `Faithful` implies `SpanFaithful` (so `Mask::parse`, `Unit::parse`, `Go::parse` are span-faithful too) -/
+theorem faithful_span_faithful (inner : List Char → List Tok) (src : List Char) (toks : List Tok)
+    (h : Faithful inner src toks) : SpanFaithful inner src toks :=
+  h.spanFaithful
+
+/-- **`JsDoc::parse` is span-faithful.** It never panics, and its output is (`JsDocLines`, base 0): for
+every line `j` of the comment, in order, the inner parser's tokens on the stripped line — the same
+spans in the same order, kinds kept or `Unlintable` — shifted by `Σ_{j'<j}(len_j'+1) + leader_j`,
+followed (unless `j` is the last line) by the line break at `Σ_{j'<j}(len_j'+1) + len_j`. Token by
+token (`SpanFaithful`): each is such a line break or has the span of an inner token of a chunk that
+is the text of the file at that offset. -/
+theorem jsdocParse_span_faithful (isWs : Char → Bool) (src : List Char) (inner : List Char → List Tok) :
+    ∃ toks, jsdocParse isWs src inner = .ok toks ∧ JsDocLines isWs inner (splitNl src) 0 toks ∧
+      SpanFaithful inner src toks := by
+  obtain ⟨toks, h1, h2⟩ := jsdocLoop_spec isWs inner src (splitNl src) [] (splitNl_ne_nil src)
+    (by simp [joinNl_splitNl])
+  exact ⟨toks, by simpa [jsdocParse] using h1, by simpa using h2,
+    JsDocLines.spanFaithful isWs inner src (splitNl src) [] toks (splitNl_ne_nil src)
+      (by simp [joinNl_splitNl]) h2⟩
+
+/-- corollary: all offsets in bounds of the source, tokens in order (given an inner parser that keeps
+its tokens inside its chunk and in order) -/
+theorem jsdocParse_inbounds (isWs : Char → Bool) (src : List Char) (inner : List Char → List Tok)
+    (hin : InnerOK inner) :
+    ∃ toks, jsdocParse isWs src inner = .ok toks ∧
+      (∀ t ∈ toks, t.span.start ≤ t.span.stop ∧ t.span.stop ≤ src.length) ∧
+      toks.Pairwise (fun a b => a.span.stop ≤ b.span.start) := by
+  obtain ⟨toks, h1, h2, _⟩ := jsdocParse_span_faithful isWs src inner
+  obtain ⟨h3, h4⟩ := JsDocLines.inbounds isWs inner hin (splitNl src) 0 toks h2
+  refine ⟨toks, h1, ?_, h4⟩
+  intro t ht
+  have := h3 t ht
+  rw [joinNl_splitNl] at this
+  omega
+
+/-- per line: every token of `jsdoc.rs:parse_line` lies inside the stripped part `a` of its line (hence
+inside the line), given `InnerOK`; `JsDocLines` then shifts the line's tokens by the line's offset -/
+theorem jsdocLine_in_line (isWs : Char → Bool) (inner : List Char → List Tok) (line : List Char)
+    (hin : InnerOK inner) :
+    ∃ a r, withoutInitiators isWs line = .ok a ∧ jsdocLine isWs inner line = .ok r ∧ a.stop ≤ line.length ∧
+      (∀ t ∈ r, a.start ≤ t.span.start ∧ t.span.start ≤ t.span.stop ∧ t.span.stop ≤ a.stop) ∧
+      r.Pairwise (fun x y => x.span.stop ≤ y.span.start) := by
+  obtain ⟨a, m, ha, h1, h2, hl, hrem⟩ := jsdocLine_spec isWs inner line
+  have hlen := slice_length a line h2
+  refine ⟨a, _, ha, hl, h2, ?_, ?_⟩
+  · intro y hy
+    obtain ⟨y0, hy0, rfl⟩ := List.mem_map.mp hy
+    obtain ⟨x, hx, hxy⟩ := hrem.mem hy0
+    by_cases he : a.isEmpty = true
+    · simp [he] at hx
+    · simp only [he, Bool.false_eq_true, if_false] at hx
+      have := (hin (slice line a)).1 x hx
+      rw [hlen] at this
+      simp only [Tok.shift, Span.pushBy, hxy.1]; omega
+  · apply List.Pairwise.map _ (fun x y h => by simp [Tok.shift, Span.pushBy]; omega)
+    apply hrem.pairwise (R := fun x y => x.stop ≤ y.start)
+    by_cases he : a.isEmpty = true
+    · simp [he]
+    · simp only [he, Bool.false_eq_true, if_false]; exact (hin (slice line a)).2
+
+/-- non-vacuity of jsdocLine_in_line: ` * @p é` — stripped part 3..7, four tokens, all marked -/
+example : ∃ a r, withoutInitiators (fun c => c == ' ') [' ', '*', ' ', '@', 'p', ' ', 'é'] = .ok a ∧
+    jsdocLine (fun c => c == ' ') charTok [' ', '*', ' ', '@', 'p', ' ', 'é'] = .ok r ∧ a.stop ≤ 7 ∧
+    (∀ t ∈ r, a.start ≤ t.span.start ∧ t.span.start ≤ t.span.stop ∧ t.span.stop ≤ a.stop) ∧
+    r.Pairwise (fun x y => x.span.stop ≤ y.span.start) :=
+  jsdocLine_in_line _ charTok [' ', '*', ' ', '@', 'p', ' ', 'é'] charTok_ok
+example : jsdocLine (fun c => c == ' ') charTok [' ', '*', ' ', '@', 'p', ' ', 'é'] =
+    .ok [⟨⟨3, 4⟩, .unlintable⟩, ⟨⟨4, 5⟩, .unlintable⟩, ⟨⟨5, 6⟩, .unlintable⟩, ⟨⟨6, 7⟩, .unlintable⟩] := by decide
+
+/-- **`JavaDoc::parse` is span-faithful.** It never panics, and its output is the HTML parser's token
+list on the comment without its delimiters, minus leaders (a sublist that loses only `*` and space
+tokens), shifted by the length of the opening delimiter, with the same spans in the same order and
+kinds kept or `Unlintable`; token by token it is `SpanFaithful`. -/
+theorem javadocParse_span_faithful (isWs : Char → Bool) (src : List Char) (inner : List Char → List Tok) :
+    ∃ a toks, withoutInitiators isWs src = .ok a ∧ javadocParse isWs src inner = .ok toks ∧
+      Remarked ((jdStrip false (inner (slice src a))).map (·.shift a.start)) toks ∧
+      (jdStrip false (inner (slice src a))).Sublist (inner (slice src a)) ∧
+      (∀ t ∈ inner (slice src a), isStarKind t.kind = false → t.kind.isSpace = false →
+        t ∈ jdStrip false (inner (slice src a))) ∧
+      SpanFaithful inner src toks := by
+  obtain ⟨a, toks, ha, h1, h2, hp, hr⟩ := javadocParse_spec isWs src inner
+  refine ⟨a, toks, ha, hp, hr, jdStrip_sublist _ _, jdStrip_keeps _ _, ?_⟩
+  intro tok ht
+  obtain ⟨x, hx, hxy⟩ := hr.mem ht
+  obtain ⟨t, hts, rfl⟩ := List.mem_map.mp hx
+  have hlen := slice_length a src h2
+  refine Or.inr ⟨a.start, slice src a, t, ?_, by omega, (jdStrip_sublist _ _).subset hts, hxy⟩
+  rw [hlen]; rfl
+
+/-- corollary: all offsets in bounds of the source, tokens in order (given `InnerOK`) -/
+theorem javadocParse_inbounds (isWs : Char → Bool) (src : List Char) (inner : List Char → List Tok)
+    (hin : InnerOK inner) :
+    ∃ toks, javadocParse isWs src inner = .ok toks ∧
+      (∀ t ∈ toks, t.span.start ≤ t.span.stop ∧ t.span.stop ≤ src.length) ∧
+      toks.Pairwise (fun a b => a.span.stop ≤ b.span.start) := by
+  obtain ⟨a, toks, ha, h1, h2, hp, hr⟩ := javadocParse_spec isWs src inner
+  obtain ⟨hinB, hinP⟩ := hin (slice src a)
+  have hlen := slice_length a src h2
+  refine ⟨toks, hp, ?_, ?_⟩
+  · intro y hy
+    obtain ⟨x, hx, hxy⟩ := hr.mem hy
+    obtain ⟨t, hts, rfl⟩ := List.mem_map.mp hx
+    have := hinB t ((jdStrip_sublist _ _).subset hts)
+    rw [hxy.1]
+    simp [Tok.shift, Span.pushBy]; omega
+  · apply hr.pairwise (R := fun x y => x.stop ≤ y.start)
+    exact List.Pairwise.map _ (fun x y h => by simp [Tok.shift, Span.pushBy]; omega)
+      (hinP.sublist (jdStrip_sublist _ _))
+
+/-- the comment of the JSDoc example above: `/** a {@l é} b` / ` * @p q` -/
+def jsSrc : List Char :=
+  ['/', '*', '*', ' ', 'a', ' ', '{', '@', 'l', ' ', 'é', '}', ' ', 'b', '\n', ' ', '*', ' ', '@', 'p', ' ', 'q']
+
+/-- non-vacuity of jsdocParse_span_faithful / jsdocParse_inbounds: two lines, a multi-byte character
+inside an inline tag, a block tag on the second line (the concrete output is the `decide`d example
+of the JSDoc section: six tokens of line one and four of line two are marked) -/
+example : ∃ toks, jsdocParse (fun c => c == ' ' || c == '\n') jsSrc charTok = .ok toks ∧
+    JsDocLines (fun c => c == ' ' || c == '\n') charTok (splitNl jsSrc) 0 toks ∧
+    SpanFaithful charTok jsSrc toks :=
+  jsdocParse_span_faithful _ jsSrc charTok
+example : ∃ toks, jsdocParse (fun c => c == ' ' || c == '\n') jsSrc charTok = .ok toks ∧
+    (∀ t ∈ toks, t.span.start ≤ t.span.stop ∧ t.span.stop ≤ jsSrc.length) ∧
+    toks.Pairwise (fun a b => a.span.stop ≤ b.span.start) :=
+  jsdocParse_inbounds _ jsSrc charTok charTok_ok
+example : jsdocParse (fun c => c == ' ' || c == '\n') jsSrc charTok =
+    .ok [⟨⟨4, 5⟩, .word⟩, ⟨⟨5, 6⟩, .space 1⟩, ⟨⟨6, 7⟩, .unlintable⟩, ⟨⟨7, 8⟩, .unlintable⟩,
+      ⟨⟨8, 9⟩, .unlintable⟩, ⟨⟨9, 10⟩, .unlintable⟩, ⟨⟨10, 11⟩, .unlintable⟩, ⟨⟨11, 12⟩, .unlintable⟩,
+      ⟨⟨12, 13⟩, .space 1⟩, ⟨⟨13, 14⟩, .word⟩, ⟨⟨14, 15⟩, .newline 1⟩, ⟨⟨18, 19⟩, .unlintable⟩,
+      ⟨⟨19, 20⟩, .unlintable⟩, ⟨⟨20, 21⟩, .unlintable⟩, ⟨⟨21, 22⟩, .unlintable⟩] := by decide
+/-- … the text under the marked token `é` (file offset 10) is the text the inner parser saw at column 6
+of the stripped line -/
+example : slice jsSrc (⟨⟨10, 11⟩, .unlintable⟩ : Tok).span =
+    slice ['a', ' ', '{', '@', 'l', ' ', 'é', '}', ' ', 'b'] (⟨6, 7⟩ : Span) :=
+  span_faithful_text jsSrc ['a', ' ', '{', '@', 'l', ' ', 'é', '}', ' ', 'b'] 4 ⟨⟨6, 7⟩, .word⟩
+    ⟨⟨10, 11⟩, .unlintable⟩ ⟨rfl, Or.inr rfl⟩ (by decide) (by decide)
+/-- non-vacuity of remark_unmarked / faithful_span_faithful -/
+example : (⟨⟨4, 5⟩, .word⟩ : Tok) = (⟨⟨0, 1⟩, .word⟩ : Tok).shift 4 :=
+  remark_unmarked _ _ ⟨rfl, Or.inl rfl⟩ (by decide)
+example : ∃ toks, unitParse (fun c => c == ' ') ['/', '/', ' ', 'é', '\n', ' ', ' ', '*', ' ', '😀', ' ', 'x'] spy = .ok toks ∧
+    SpanFaithful spy ['/', '/', ' ', 'é', '\n', ' ', ' ', '*', ' ', '😀', ' ', 'x'] toks := by
+  obtain ⟨toks, h, hf, _⟩ := unitParse_faithful (fun c => c == ' ')
+    ['/', '/', ' ', 'é', '\n', ' ', ' ', '*', ' ', '😀', ' ', 'x'] spy
+  exact ⟨toks, h, faithful_span_faithful _ _ _ hf⟩
+
+/-- the comment of the JavaDoc example above: `/** é` / ` * @s R */` -/
+def jdSrc : List Char :=
+  ['/', '*', '*', ' ', 'é', '\n', ' ', '*', ' ', '@', 's', ' ', 'R', ' ', '*', '/']
+
+/-- non-vacuity of javadocParse_span_faithful / javadocParse_inbounds: leaders (` * `) dropped after
+the line break, the `@s R` window marked, a multi-byte character before it -/
+example : ∃ a toks, withoutInitiators (fun c => c == ' ' || c == '\n') jdSrc = .ok a ∧
+    javadocParse (fun c => c == ' ' || c == '\n') jdSrc charTok = .ok toks ∧
+    Remarked ((jdStrip false (charTok (slice jdSrc a))).map (·.shift a.start)) toks ∧
+    (jdStrip false (charTok (slice jdSrc a))).Sublist (charTok (slice jdSrc a)) ∧
+    (∀ t ∈ charTok (slice jdSrc a), isStarKind t.kind = false → t.kind.isSpace = false →
+      t ∈ jdStrip false (charTok (slice jdSrc a))) ∧
+    SpanFaithful charTok jdSrc toks :=
+  javadocParse_span_faithful _ jdSrc charTok
+example : ∃ toks, javadocParse (fun c => c == ' ' || c == '\n') jdSrc charTok = .ok toks ∧
+    (∀ t ∈ toks, t.span.start ≤ t.span.stop ∧ t.span.stop ≤ jdSrc.length) ∧
+    toks.Pairwise (fun a b => a.span.stop ≤ b.span.start) :=
+  javadocParse_inbounds _ jdSrc charTok charTok_ok
+example : withoutInitiators (fun c => c == ' ' || c == '\n') jdSrc = .ok ⟨4, 13⟩ := by decide
+example : javadocParse (fun c => c == ' ' || c == '\n') jdSrc charTok =
+    .ok [⟨⟨4, 5⟩, .word⟩, ⟨⟨5, 6⟩, .newline 1⟩, ⟨⟨9, 10⟩, .unlintable⟩, ⟨⟨10, 11⟩, .unlintable⟩,
+      ⟨⟨11, 12⟩, .unlintable⟩, ⟨⟨12, 13⟩, .unlintable⟩] := by decide
 
 /-! ## (d) Literate Haskell -/
 
